@@ -33,6 +33,7 @@ type spec struct {
 	maxSkip  int
 	extra    int // an additional empty block is closed with probability extra/10
 	byzFirst bool
+	restart  int // an honest keyper process is restarted before its step with probability restart/20
 }
 
 func (s spec) String() string {
@@ -45,7 +46,7 @@ func (s spec) String() string {
 	for _, i := range idx {
 		bs = append(bs, fmt.Sprintf("byz%d{%s}", i, s.byz[i]))
 	}
-	return fmt.Sprintf("%s n=%d t=%d phase=%d sched=%d skip=%d/%d extra=%d byzFirst=%t %s", s.family, s.n, s.t, s.phaseLen, s.sched, s.skip, s.maxSkip, s.extra, s.byzFirst, strings.Join(bs, " "))
+	return fmt.Sprintf("%s n=%d t=%d phase=%d sched=%d skip=%d/%d extra=%d byzFirst=%t restart=%d/20 %s", s.family, s.n, s.t, s.phaseLen, s.sched, s.skip, s.maxSkip, s.extra, s.byzFirst, s.restart, strings.Join(bs, " "))
 }
 
 var specs []spec
@@ -64,7 +65,7 @@ func main() {
 		Level: "fault_enumeration",
 		Rule: "case = one complete DKG run over the real shuttermint app with repository keypers as the honest ones and harness-played Byzantine keypers; " +
 			"family byz3 = every strategy in {commitment: correct|none|wrong degree|duplicate} x {eval per victim: correct|wrong|none}^2 x {false accusation: none|victim a|victim b} x {apology: correct|wrong|none} x {in phase|after phase} for each Byzantine index of n=3,t=2 (exhaustive), under a regular schedule, plus seeded irregular schedules; " +
-			"family byzN = seeded strategies for n=4 (t=3: one Byzantine; t=2: two) and n=5 (t=3: two); sampled strategies additionally use undecryptable evaluations, evaluations plus the group order, early accusations, unsolicited apologies, wrong-eon messages and messages naming outsiders or the sender itself; family honest = all keypers honest, seeded schedules (step order, skipped steps, empty blocks, phase length 4..8, n in 3..5). " +
+			"family byzN = seeded strategies for n=4 (t=3: one Byzantine; t=2: two) and n=5 (t=3: two); sampled strategies additionally use undecryptable evaluations, evaluations plus the group order, early accusations, unsolicited apologies, wrong-eon messages and messages naming outsiders or the sender itself; in the seeded families honest keyper processes are additionally restarted between two iterations of their main loop (fresh in-memory state, same database); family honest = all keypers honest, seeded schedules (step order, skipped steps, empty blocks, phase length 4..8, n in 3..5). " +
 			"distinct = spec string; non-trivial = at least one honest keyper reported success (agreement is then checked) ",
 		Assumptions: []string{
 			"Tendermint is replaced by smchain: the harness chooses block boundaries; keyper broadcasts execute into the open block",
@@ -84,6 +85,7 @@ func main() {
 			agg.Require("honest_all_in_phase_runs", 10)
 			agg.Require("byz_excluded_runs", 10)
 			agg.Require("apology_repaired_runs", 5)
+			agg.Require("honest_keyper_restarts", 50)
 		},
 	})
 }
@@ -138,7 +140,7 @@ func prepare(env *vlib.Env) (int, error) {
 	for i := 0; i < nIrr; i++ {
 		b := rng.Intn(3)
 		specs = append(specs, spec{family: "byz3-sched", n: 3, t: 2, phaseLen: int64(4 + rng.Intn(5)), byz: map[int]dkgsim.Strategy{b: randStrategy(3, b)},
-			sched: rng.Uint64(), skip: rng.Intn(4), maxSkip: 1, extra: rng.Intn(3), byzFirst: rng.Bool()})
+			sched: rng.Uint64(), skip: rng.Intn(4), maxSkip: 1, extra: rng.Intn(3), byzFirst: rng.Bool(), restart: rng.Intn(3) * 2})
 	}
 	// byzN
 	type nt struct{ n, t, f int }
@@ -153,7 +155,7 @@ func prepare(env *vlib.Env) (int, error) {
 		irregular := rng.Bool()
 		sp := spec{family: fmt.Sprintf("byz%d", sh.n), n: sh.n, t: sh.t, phaseLen: int64(5 + rng.Intn(3)), byz: bz, sched: rng.Uint64(), byzFirst: rng.Bool()}
 		if irregular {
-			sp.skip, sp.maxSkip, sp.extra = rng.Intn(3), 1, rng.Intn(3)
+			sp.skip, sp.maxSkip, sp.extra, sp.restart = rng.Intn(3), 1, rng.Intn(3), rng.Intn(3)*2
 		}
 		specs = append(specs, sp)
 	}
@@ -165,7 +167,7 @@ func prepare(env *vlib.Env) (int, error) {
 		if t > n {
 			t = n
 		}
-		specs = append(specs, spec{family: "honest", n: n, t: t, phaseLen: int64(4 + rng.Intn(5)), sched: rng.Uint64(), skip: rng.Intn(5), maxSkip: 1 + rng.Intn(2), extra: rng.Intn(4)})
+		specs = append(specs, spec{family: "honest", n: n, t: t, phaseLen: int64(4 + rng.Intn(5)), sched: rng.Uint64(), skip: rng.Intn(5), maxSkip: 1 + rng.Intn(2), extra: rng.Intn(4), restart: rng.Intn(3)})
 	}
 	return len(specs), nil
 }
@@ -199,6 +201,7 @@ func runCase(env *vlib.Env, idx int, rep *vlib.Reporter) {
 	skipped := make([]int, sp.n)
 	maxRounds := int(sp.phaseLen)*2*5 + 40
 	rounds := 0
+	restarts := 0
 	for ; rounds < maxRounds; rounds++ {
 		if sp.byzFirst {
 			for _, b := range byz {
@@ -215,6 +218,14 @@ func runCase(env *vlib.Env, idx int, rep *vlib.Reporter) {
 				continue
 			}
 			skipped[i] = 0
+			if sp.restart > 0 && rng.Chance(sp.restart, 20) {
+				// the process is stopped between two iterations of its main loop and started again
+				if err := k.Restart(ctx); err != nil {
+					rep.Inconclusive("restart: " + err.Error())
+					return
+				}
+				restarts++
+			}
 			if err := k.Step(ctx); err != nil {
 				rep.Violationf("keyper-step-error", map[string]any{"spec": desc, "keyper": i, "round": rounds, "error": err.Error()}, "honest keyper %d failed in round %d: %v", i, rounds, err)
 				return
@@ -235,6 +246,7 @@ func runCase(env *vlib.Env, idx int, rep *vlib.Reporter) {
 	}
 	rep.Obs("runs", 1)
 	rep.Obs("runs_"+sp.family, 1)
+	rep.Obs("honest_keyper_restarts", int64(restarts))
 	for _, k := range s.Keypers {
 		if k != nil {
 			if u := k.Node.CheckUnsupported(); u != "" {
